@@ -104,7 +104,7 @@ func cmdFilter(args []string) *Result {
 		thorough := os.Getenv("VERIF_TIER") == "thorough"
 		k := 0
 		emit := func(doc []byte) {
-			if len(doc) > 400 {
+			if len(doc) > 700 {
 				return
 			}
 			d := append([]byte(nil), doc...)
@@ -141,7 +141,7 @@ func cmdFilter(args []string) *Result {
 			n = 150000
 		}
 		pieces := []string{"<", ">", "<script>", "</script>", "<SCRIPT", "<!--", "-->", "--!>", "<!-->", "<!--->", "<![CDATA[", "]]>", "<?", "?>", "<!X", "<b", "<title>", "<xmp", "<style\n", "<iframe src=\"x\">",
-			"<plaintext>", "<3", "<<", "\"", "'", "=", " ", "\n", "a", "<div>\n", "<pre>", "</pre>", "`", "<textarea>", "<noembed>", "<noframes>", "<a title=\">\">", "<script<script>", "/", "-", "!"}
+			"<plaintext>", "<3", "<<", "\"", "'", "=", " ", "\n", "a", "<div>\n", "<pre>", "</pre>", "`", "<textarea>", "<noembed>", "<noframes>", "<a title=\">\">", "<script<script>", "/", "-", "!", "\f", "<script\f", "<XMP\f>"}
 		for i := 0; i < n; i++ {
 			var sb strings.Builder
 			if src.rng.Intn(2) == 0 {
@@ -167,7 +167,7 @@ func cmdFilter(args []string) *Result {
 		if thorough {
 			maxJunk = 4
 		}
-		exhaustive([]string{" ", "\"", "'", "=", "x", "/", "<title"}, maxJunk, func(junk []byte) {
+		exhaustive([]string{" ", "\"", "'", "=", "x", "/", "<title", "\f"}, maxJunk, func(junk []byte) {
 			j := string(junk)
 			for oi, o := range opens {
 				for vi, v := range victims {
